@@ -509,12 +509,25 @@ def check_external_histories(res, cfg, kind, thorough):
 
 
 # =============================================================================== C07
+def multiline_error_docs():
+    docs = []
+    for lines_ in ([b"[1 2", b" 3 4)", b" 5 6", b"]"], [b"[", b"#_", b"]", b""], [b"{:a 1", b" :b 2]", b" :c 3", b"}"], [b"(", b" (", b"  }", b" )", b")"],
+                   [b"; comment", b"[1", b"2 \"open", b"3]", b""], [b"[:a", b"#", b"]"], [b"{:k", b"}", b"", b""], [b"[1", b" 2", b" 3", b" 4", b" \\u12", b" 5]"],
+                   [b"[", b"1 2 3 4 5 6 7 8 9 10 11 12 13 14 15 16 17 18 19 20)", b"x", b"]"]):
+        for sepch in (b"\n", b"\r\n", b"\n\x0b", b"\n\x0b\x0b", b"\n\t", b"\n\x0c", b"\n\x1c"):
+            docs.append(sepch.join(lines_))
+            docs.append(b" " * 7 + sepch.join(lines_))
+            docs.append(b";" + b"c" * 14 + b"\n" + sepch.join(lines_))
+    return docs
+
+
 def following_bytes_cases(cfg):
     """(prefix that is the input, tails that may stand behind it in memory): tokens cut at every position, alone and
     inside collections; the tails continue the token, complete a different token, or are NUL / blank / junk"""
     BS = b"\x5c"
     toks = [b"##Inf", b"##-Inf", b"##NaN", BS + b"newline", BS + b"space", BS + b"tab", BS + b"return", BS + b"formfeed", BS + b"backspace",
-            BS + b"u0041", BS + b"a", b"nil", b"true", b"false", b"123456", b"-17", b"1.5e10", b"1e-5", b"12N", b"3.5M", b'"string"',
+            BS + b"u0041", BS + b"a", b"nil", b"true", b"false", b"123456", b"-17", b"1.5e10", b"1e-5", b"2.5e30", b"-1e23", b"0.30000000000000004", b"1.7976931348623157e308",
+            b"12345678901234567.5", b"12N", b"3.5M", b'"string"',
             b'"a' + BS + b'nb"', b'"a' + BS + b'u0041b"', b":kw/name", b"sym", b"ns/sym", b"#inst 1", b"#_1 2", b"#{1 2}", b"[1 2]", b"{:a 1}"]
     if cfg[0] == "1":
         toks += [b"0x1F", b"017", b"1/2", b"-3/4", b"^:a [1]", b"#:n{:a 1}", BS + b"o101", b"36rZZ", b'"a' + BS + b'101b"']
@@ -526,7 +539,7 @@ def following_bytes_cases(cfg):
             for (pre, post) in ((b"", b""), (b"[1 ", b"]"), (b"{:k ", b"}")):
                 head = pre + tk[:cut]
                 rest = tk[cut:] + post
-                tails = [b"", rest, rest + b" 1 2 3 4 5 6 7 8 9 0 1 2 3 4 5 6 7 8 9", b"\x00" * 20, b"f", b"e", b"0", b"a" * 20, b"\"" + b" " * 20,
+                tails = [b"", rest, rest + b" 1 2 3 4 5 6 7 8 9 0 1 2 3 4 5 6 7 8 9", b"\x00" * 20, b"f", b"e", b"0", b"7", b"e5", b"e-3", b".5", b"a" * 20, b"\"" + b" " * 20,
                          b"1" * 20, b" " * 20, BS * 20, b"\xff" * 20]
                 cases.append((head, tails))
     return cases
@@ -839,6 +852,22 @@ def check_c08(res):
                 "for every permutation. non-trivial = distinct (count, flavour, twin, positions)")
     counts = [2, 3, 15, 16, 17, 18, 100, 999, 1000, 1001, 1002, 1600] if thorough else [2, 3, 16, 17, 18, 1000, 1001]
     for cfg in CFGS:
+        tl8, tm8 = [], []
+        for (t1, t2) in ((b"#pt 1", b"#ptx 1"), (b"#a/b :x", b"#a/bc :x"), (b"#t [1 2]", b"#tt [1 2]"), (b"#x \"s\"", b"#xy \"s\"")):
+            for pad_n in (0, 3, 14, 15, 16, 30, 1000):
+                padding = [b":p%d" % i for i in range(pad_n)]
+                for order in ((t1, t2), (t2, t1)):
+                    els_ = list(order) + padding
+                    tl8.append(docline(b"#{" + b" ".join(els_) + b"}")); tm8.append(order)
+                    tl8.append(docline(b"{" + b" ".join(e_ + b" 0" for e_ in els_) + b"}")); tm8.append(order)
+                    tl8.append(docline(b"#{" + b" ".join(padding + list(order)) + b"}")); tm8.append(order)
+        timpl8, tmodel8 = correspond(res, cfg, "san", tl8, label="prefix-tags")
+        for order, ln, a in zip(tm8, tl8, timpl8):
+            res.count("prefix-tags")
+            res.nontrivial.add((cfg, "prefixtags", ln[-50:]))
+            if is_crash(a) or not a.startswith("OK "):
+                res.violations.append(Violation("pairwise-distinct-literal-rejected", ln[:3000],
+                                                "tagged values %r and %r are different values: %s" % (order[0], order[1], a[:100]), cfg))
         lines, meta = [], []
         twins = c08_twins(cfg)
         for count in counts:
@@ -965,6 +994,14 @@ def check_c09(res):
                     ("ints", ["%d"], [17, 1000] if thorough else [17, 200]),
                     # the same name with and without a namespace, in both orders: the helpers must tell them apart
                     ("kw-ns-collisions", [":n/k%d :k%d" , ":k%d :n/k%d", ":user/k%d", ":k%d"], [2, 6, 17, 40])]
+        for mdoc_ in (b"{:a 1 :b nil}", b"{nil nil}", b"{[1 2] nil :k false}", b"{:a nil :b nil :c nil}", b"{\"s\" nil 7 [] :z {}}", b"{nil 1 false nil true false}"):
+            nk = {b"{:a 1 :b nil}": 2, b"{nil nil}": 1, b"{[1 2] nil :k false}": 2, b"{:a nil :b nil :c nil}": 3, b"{\"s\" nil 7 [] :z {}}": 3, b"{nil 1 false nil true false}": 3}[mdoc_]
+            inner = mdoc_[1:-1]
+            ops_ = []
+            for i_ in range(nk):
+                ops_ += ["L0,1.%d" % (2 * i_), "K0,1.%d" % (2 * i_)]
+            scripts.append("script P0=%s;P1=%s;%s" % (hexs(mdoc_), hexs(b"[" + inner + b"]"), ";".join(ops_)))
+            meta.append(("nilvalues", nk, mdoc_, 0, "nilvalues"))
         for pname, kinds, size in [(pn, ks, sz) for pn, ks, szs in profiles for sz in szs]:
             keys = []
             for i in range(size):
@@ -1043,6 +1080,13 @@ def check_c09(res):
                 res.violations.append(Violation("lookup-crash", ln[:3000], a, cfg))
                 continue
             out = a.split(";")
+            if m_[0] == "nilvalues":
+                for i_ in range(m_[1]):
+                    l, k = out[2 + 2 * i_], out[3 + 2 * i_]
+                    if l != "idx%d" % i_ or k != "1":
+                        res.violations.append(Violation("present-key-not-found", ln[:3000],
+                                                        "%r: copy of key %d -> lookup %s contains-key %s" % (m_[2], i_, l, k), cfg))
+                continue
             if m_[0] in ("general", "hashed-probe"):
                 _, size, idxs, npre, _pn = m_
                 body = out[3 + npre:]
@@ -1154,6 +1198,11 @@ def c05_literals(rnd, n, thorough):
                 m = rnd.choice("123456789") + "".join(rnd.choice("0123456789") for _ in range(min(L - 1, 30))) + "0" * max(0, L - 31)
                 out.append(rnd.choice(["", "-"]) + m[:L] + "e%d" % E)
                 out.append(rnd.choice(["", "-"]) + m[:L] + ".0e%d" % E)
+    for mant in ("1", "1.5", "2.5", "123.456", "9007199254740993", "0.1"):
+        for ev in (0, 3, 5, 10, 22, 23, 100, 220, 308, 400):
+            for zs in (1, 2, 3, 4, 5, 8):
+                for sg in ("", "+", "-"):
+                    out.append("%se%s%s%d" % (mant, sg, "0" * zs, ev))
     for E in (330, 700, 1001, 1100, 2000, 5000):
         for T in (-330, -324, -308, -1, 0, 300, 308, 309):
             Z = E - T - 1
@@ -1262,6 +1311,32 @@ def c06_bodies(rnd, cfg, n):
     return out
 
 
+def check_raw_nul_strings(res, cfg, crash_kind):
+    """literals without escapes that contain raw NUL bytes: bytes / length exact, and the C-string comparison helper never
+    equal (a C string cannot contain NUL); under ASan the probe is an exact-size heap block"""
+    nul_scripts, nul_meta = [], []
+    for body in (b"id\x00", b"id\x00xxxxxxxx", b"\x00xy", b"ab\x00cd", b"\x00", b"a\x00\x00b", b"q" * 15 + b"\x00" + b"r" * 20, b"\x00" * 5):
+        for probe in (body.split(b"\x00")[0], b"", body.replace(b"\x00", b""), body.split(b"\x00")[0] + b"x", b"zz"):
+            for pre_ in ("", "G0.0;"):
+                nul_scripts.append("script P0=%s;%sQ0.0,%s;G0.0;Q0.0,%s" % (hexs(b'["' + body + b'"]'), pre_, hexs(probe), hexs(probe)))
+                nul_meta.append((body, probe))
+    nimpl, nmodel = correspond(res, cfg, "san", nul_scripts, label="raw-nul-strings")
+    for (body, probe), ln, a in zip(nul_meta, nul_scripts, nimpl):
+        res.count("raw-nul-string")
+        res.nontrivial.add((cfg, "rawnul", body, probe, ln[-30:]))
+        out = a.split(";")
+        if is_crash(a):
+            res.violations.append(Violation(crash_kind, ln[:3000], a[:300], cfg))
+        elif out[0] == "ok":
+            qs = [x for x in out[1:] if x in ("0", "1")]
+            gets = [x for x in out[1:] if ":" in x]
+            if any(g != "%d:%s" % (len(body), hexs(body)) for g in gets):
+                res.violations.append(Violation("string-bytes-or-length-wrong", ln[:3000], "content with raw NUL %r: %s" % (body, a[:160]), cfg))
+            if any(q != "0" for q in qs):       # a C string never equals content that contains NUL
+                res.violations.append(Violation("string-equals-helper-disagrees-with-bytes", ln[:3000],
+                                                "content %r (length %d) equals the C string %r: %s" % (body, len(body), probe, a[:120]), cfg))
+
+
 @prop("C06")
 def check_c06(res):
     rnd = random.Random(res.seed)
@@ -1332,6 +1407,7 @@ def check_c06(res):
                           "Q0.0,%s;Q0.0,%s;G0.0" % (hexs(other), hexs(dec)), "Q0.0,%s;Q0.0,%s;G0.0" % (hexs(shorter), hexs(dec))):
                 scripts.append("script P0=%s;%s;G0.0;H0.0;G0.0;Q0.0,%s" % (hexs(doc), order, hexs(dec)))
                 smeta.append((body, dec, order))
+        check_raw_nul_strings(res, cfg, "string-helper-crash")
         impl, model = correspond(res, cfg, "san", scripts, label="string-get-scripts")
         for (body, dec, order), ln, a in zip(smeta, scripts, impl):
             out = a.split(";")
@@ -1646,6 +1722,7 @@ def check_c01(res):
         for d in docs:
             phase = g.r.randrange(16)
             lines.append(docline(b" " * phase + d))
+        check_raw_nul_strings(res, cfg, "memory-error-or-undefined-behaviour:accessor")
         impl, model = correspond(res, cfg, "san", lines, label="sanitized")
         for ln, a in zip(lines, impl):
             res.nontrivial.add(ln)
@@ -1840,6 +1917,7 @@ def check_c11(res):
             edocs.append(d)
         edocs += [b"\n" * k + b"]" for k in (0, 1, 15, 16, 17, 63, 64, 65, 129)]
         edocs += [b"\\u12", b"[\n\n  \\u12", b'"abc', b"[1 2\n", b"{:a\n}", b"#foo"]
+        edocs += multiline_error_docs()
         lines = [docline(d) for d in edocs]
         impl, model = correspond(res, cfg, "san", lines, label="error-positions")
         for d, ln, a in zip(edocs, lines, impl):
@@ -2179,6 +2257,7 @@ def c16_corpus(cfg):
             b"#{" + b" ".join(str(i).encode() for i in range(1100)) + b"}",
             b"#{" + b" ".join(("[%d]" % i).encode() for i in range(30)) + b"}",
             b"[" + b" ".join(b'"s%d\\n"' % i for i in range(40)) + b"]",
+            b'"' + b"y" * 20000 + b'"', b'[1 "' + b"z" * 17000 + b'" "short" "' + b"w" * 40000 + b'"]',
             b"1." + b"5" * 600, b"[" + b"x" * 20000 + b" 1]", b"1234567890" * 60 + b"e-590", b"0." + b"0" * 600 + b"25e601",
             b"[" + b" ".join(b"%d" % i for i in range(400)) + b"]", b"{" + b" ".join(b":k%d [%d \"v\"]" % (i, i) for i in range(700)) + b"}",
             # duplicates that only the hash-based / sort-based strategies see (rejected in the failure-free run:
@@ -2286,9 +2365,14 @@ def check_c15(res):
                 docs.append(b"[1 {:k " + fam + b"} \"x\"]")
         lines = []
         for d in docs:
-            lines.append(docline(d, reg=rnd.choice(["-", "inst:0,uuid:1,fail:2"]), mode=rnd.randrange(3), eof=rnd.randrange(2)))
+            lines.append(docline(d, reg=rnd.choice(["-", "inst:0,uuid:1,fail:2"]), mode=rnd.randrange(3), eof=rnd.randrange(3)))
             if rnd.random() < 0.3:
                 lines.append("docreg %s inst:1,uuid:4,x:5 0 0" % hexs(d))
+        # every way of reaching end of input, with no / a static / a library-made end-of-input value
+        for d in (b"", b" ", b"\n\n", b"; c", b"; c\n", b",,,", b"#_ x", b"#_[1 2 3]", b"#_" + b"[" + b" ".join(b"7" for _ in range(4000)) + b"]", b"#tag", b"#_ #_ 1 2 ;z"):
+            for e_ in (0, 1, 2):
+                for reg_ in ("-", "inst:0"):
+                    lines.append(docline(d, reg=reg_, mode=0, eof=e_))
         lines.append("freenull")
         impl, model = correspond(res, cfg, "san", lines, label="ownership")
         for ln, a in zip(lines, impl):
@@ -2377,6 +2461,20 @@ def check_c18(res):
         bd = [b"1.5M", b"2.5M", b"1.5M"] + [b"%d" % i for i in range(1, n_ - 2)]
         special.append(b"#{" + b" ".join(bd) + b"}")
         special.append(b"#{" + b" ".join([b"7N", b"12345678901234567890", b"7N"] + [b":k%d" % i for i in range(n_ - 3)]) + b"}")
+    nl18 = []
+    for lit in ("1e3M", "2.5E-3M", "-4e2M", "0e3M", "1.5M", "-0.5M", "123456789012345678901234567890.5M", "1e400M", "1e-400M", "7M", "12.5e+10M", "3E0M"):
+        nl18.append("script P0=%s;N0.0;N0.1;D0.0" % hexs(("[%s -%s]" % (lit, lit.lstrip("-"))).encode()))
+    nouts = {}
+    for cfg in CFGS:
+        impl, model = correspond(res, cfg, "san", nl18, label="bigdec-as-double")
+        nouts[cfg] = impl
+    for i, ln in enumerate(nl18):
+        res.count("bigdec-as-double")
+        res.nontrivial.add(("asdouble", ln))
+        for cfg in CFGS[1:]:
+            if nouts[cfg][i] != nouts["00"][i]:
+                res.violations.append(Violation("core-document-reads-differently-with-flags", ln,
+                                                "edn_number_as_double, flags %s: %s vs core %s" % (cfg, nouts[cfg][i][:120], nouts["00"][i][:120]), cfg))
     slines = [docline(d) for d in special]
     souts = {}
     for cfg in CFGS:
@@ -2540,7 +2638,9 @@ def check_c19(res):
             for ctx in ctxs:
                 mlines.append(docline((ctx % ("^" + ann + " [1]")).encode()))
                 mmeta.append(("badann", None, ctx % ("^" + ann + " [1]"), None, None))
-        for d in [b"[^:a]", b"[^]", b"{:k ^:a}", b"(^{:a 1})", b"^", b"^:a", b"#{^:a}", b"[^:a ^:b]"]:
+        for d in [b"[^:a]", b"[^]", b"{:k ^:a}", b"(^{:a 1})", b"^", b"^:a", b"#{^:a}", b"[^:a ^:b]",
+                  b"[^:a #_x]", b"{^[T] #_k}", b"#{^\"T\" #_[1 2]}", b"[[1] ^:a ^:b #_ #_ 2 3]", b"[1 2 ^#_:a]", b"[^ #_x]", b"(^:a #_ #_ 1 2)",
+                  b"{:k ^:a #_v}", b"[^:a ;c\n#_x\n]", b"#:n{^T #_k}", b"^:a #_x", b"[^{:a 1} #_[^:b x]]"]:
             mlines.append(docline(d))
             mmeta.append(("missing", d, None, None, None))
         # handler results as metadata targets: id returns the operand, w wraps it in a vector, k returns a keyword, x an external value
@@ -2625,7 +2725,7 @@ def c20_blocks(rnd, n, thorough):
             elif k < 0.3:
                 lines.append(ind)                     # blank line with blanks
             else:
-                body = bytes(rnd.choice(b"abcxyz \"\\{}:;#") for _ in range(rnd.choice([1, 2, 5, 10, 14, 15, 16, 17, 20, 33])))
+                body = bytes(rnd.choice(b"abcxyz \"\\{}:;#" + (b"\xc3\xa9\xe2\x82\xac\xf0\x9f\x98\x80\x80\xff" if rnd.random() < 0.25 else b"")) for _ in range(rnd.choice([1, 2, 5, 10, 14, 15, 16, 17, 20, 33])))
                 body = body.lstrip(b" ")
                 body = body.replace(b'"""', b'""x').replace(b'\\"""', b"\\x")
                 for _ in range(rnd.choice([0, 0, 0, 1, 2, 3])):
@@ -2701,6 +2801,12 @@ def check_c20(res):
                 scripts.append("script P0=%s;P1=%s;E0,1;E1,0;H0;H1;P2=%s" % (hexs(b'"""\n' + b + b'"""'), hexs(lit),
                                                                              hexs(b"#{" + b'"""\n' + b + b'""" ' + lit + b"}")))
                 smeta.append((b, needs_esc))
+                if len(scripts) % 5 == 0:
+                    # the same pair among 17 other elements, one of them a collection: the hash-table strategy decides
+                    pad = b" ".join(b":p%d" % i for i in range(16)) + b" []"
+                    scripts.append("script P0=%s;P1=%s;E0,1;E1,0;H0;H1;P2=%s" % (hexs(b'"""\n' + b + b'"""'), hexs(lit),
+                                                                                 hexs(b"#{" + pad + b' """\n' + b + b'""" ' + lit + b"}")))
+                    smeta.append((b, needs_esc))
         impl, model = correspond(res, cfg, "san", scripts, label="text-block-vs-literal")
         for (b, needs_esc), ln, a in zip(smeta, scripts, impl):
             out = a.split(";")
@@ -2857,6 +2963,21 @@ def check_c03(res):
                     res.violations.append(Violation("grammar-derivation-read-to-a-different-value", ln,
                                                     "%r: read %s, grammar gives %s" % (d[:120], got[:200], want[:200]), cfg))
     # recorded findings, re-observed on isolated witnesses
+    ucps = sorted(set([0x21, 0x41, 0x7E, 0x7F, 0x80, 0xFF, 0x100, 0x7FF, 0x800, 0xD7FF, 0xD800, 0xD801, 0xDBFF, 0xDC00, 0xDFFF, 0xE000, 0xFFFD, 0xFFFE, 0xFFFF]
+                      + list(range(0x0100, 0x10000, 0x0333))))
+    for cfg in CFGS:
+        ul_ = []
+        for cp in ucps:
+            for fmt in ("%04X", "%04x"):
+                ul_.append((cp, docline(("[:a \\u" + fmt % cp + " 1]").encode())))
+                ul_.append((cp, docline(("\\u" + fmt % cp).encode())))
+        uimpl, umodel = correspond(res, cfg, "san", [l for _, l in ul_], label="unicode-character-literals")
+        for (cp, ln), a in zip(ul_, uimpl):
+            res.count("unicode-char")
+            res.nontrivial.add((cfg, "uchar", ln))
+            if is_crash(a) or ("char:%d@" % cp) not in a:
+                res.violations.append(Violation("well-formed-document-rejected" if a.startswith("ERR") else "document-read-to-a-different-value", ln,
+                                                "character literal U+%04X: %s" % (cp, a[:120]), cfg))
     lines = [docline(d) for _, d, _ in C03_ISOLATED]
     impl, model = correspond(res, "00", "san", lines, label="isolated-witnesses")
     for (kind, d, want), ln, a in zip(C03_ISOLATED, lines, impl):
@@ -3234,6 +3355,16 @@ def check_c02(res):
         g = Gen(res.seed * 13 + int(cfg, 2), clj=cfg[0] == "1", exp=cfg[1] == "1")
         docs = [g.document(5) for _ in range(400 if thorough else 150)]
         docs += [g.corrupt(rnd.choice(docs)) for _ in range(300 if thorough else 100)]
+        # malformed multi-line documents (defect at the end of a middle line): they must come back; run apart from the rest,
+        # with a small CPU budget and giving up after two hangs, so that a looping implementation cannot stall the check
+        ml_ = [docline(d) for d in multiline_error_docs()]
+        mo_ = runner.run_impl(cfg, "prod", ml_, timeout=60, per_case_cpu=5, max_crashes=2)
+        for ln, a in zip(ml_, mo_):
+            res.count("multiline-error-doc")
+            res.evaluations += 1
+            if is_crash(a) or a.startswith("MISSING"):
+                res.violations.append(Violation("read-does-not-return-or-crashes", ln[:3000], "multi-line malformed document: %s" % a[:120], cfg))
+                break
         for v in range(256):
             docs.append(b"[1 2 " + bytes([v]) + b" 3]")
             docs.append(b"[1 2 " + bytes([v]) + b" 3 4 5 6 7 8 9 10 11 12 13 14 15]")
